@@ -24,6 +24,9 @@ KeyTypes == {"Ed25519", "BLS12381G2", "bogus"}
 Algs == {"EdDSA", "ES256", "bogus"}
 \* generate_bbs: both BBS ciphersuites make a key; any other proof algorithm (SU-ES256, the MAC family) is refused
 BbsAlgs == {"BLS12381_SHA256", "BLS12381_SHAKE256"}
+\* sign_bbs / update_signature: the caller's public JWK is the key's own one, the BLS public JWK of ANOTHER live key, or an
+\* Ed25519 public JWK
+BbsPubClasses == {"own", "other_bls", "ed"}
 \* insert: only a fully private Ed25519 JWK whose alg is the compatible JWS algorithm is storable. "wrong_alg" = a known JWS
 \* algorithm that does not fit the key, "unknown_alg" = an alg member that is present but names no JWS algorithm.
 JwkClasses == {"private_alg", "public_only", "no_alg", "wrong_alg", "unknown_alg", "wrong_kty", "wrong_crv"}
@@ -49,6 +52,10 @@ Apply(L, D, M, B, op) ==
          ELSE [res |-> Err, live |-> L, dead |-> D, kidmap |-> M, bls |-> B]
     [] op.name = "sign" ->       \* a signature is only ever made with the private key stored under that id
          [res |-> [ok |-> op.slot \in (L \ B) /\ op.pub \in {"own", "other"}], live |-> L, dead |-> D, kidmap |-> M, bls |-> B]
+    [] op.name \in {"sign_bbs", "update_bbs"} ->
+         \* JwkStorageBbsPlusExt::sign_bbs / update_signature: only a live BLS key, presented with its own public JWK, makes
+         \* (or re-makes) a BBS+ signature; an Ed25519 key never does, whatever BLS public JWK the caller presents
+         [res |-> [ok |-> op.slot \in (L \cap B) /\ op.pub = "own"], live |-> L, dead |-> D, kidmap |-> M, bls |-> B]
     [] op.name = "delete" ->
          IF op.slot \in L THEN [res |-> [ok |-> TRUE], live |-> L \ {op.slot}, dead |-> D \cup {op.slot}, kidmap |-> M, bls |-> B]
          ELSE [res |-> Err, live |-> L, dead |-> D, kidmap |-> M, bls |-> B]
@@ -68,6 +75,7 @@ Apply(L, D, M, B, op) ==
 KidVals == 1..3
 Ops == [name : {"generate"}, kt : KeyTypes, alg : Algs]
        \cup [name : {"generate_bbs"}, kt : {"BLS12381G2", "Ed25519"}, alg : BbsAlgs \cup {"SU_ES256"}]
+       \cup [name : {"sign_bbs", "update_bbs"}, slot : 0..MaxKeys, pub : BbsPubClasses]
        \cup [name : {"insert"}, jwk : JwkClasses]
        \cup [name : {"sign"}, slot : 0..MaxKeys, pub : PubClasses]
        \cup [name : {"delete", "exists"}, slot : 0..MaxKeys]
@@ -82,7 +90,11 @@ Capacity(op) == ((op.name = "generate" /\ op.kt = "Ed25519" /\ op.alg = "EdDSA")
                   => Cardinality(Issued) < MaxKeys
 \* "other key's public JWK" needs a second live key
 \* "other key's public JWK" needs a second live Ed25519 key
-Sensible(op) == (op.name = "sign" /\ op.pub = "other") => Cardinality((live \ bls) \ {op.slot}) >= 1
+Sensible(op) == /\ (op.name = "sign" /\ op.pub = "other") => Cardinality((live \ bls) \ {op.slot}) >= 1
+                \* another key's BLS public JWK: only offered for ids that are not themselves live BLS keys (with two BLS keys of
+                \* different ciphersuites the contract does not say which suite a "borrowed" JWK selects)
+                /\ (op.name \in {"sign_bbs", "update_bbs"} /\ op.pub = "other_bls") =>
+                      (op.slot \notin (live \cap bls) /\ Cardinality((live \cap bls) \ {op.slot}) >= 1)
 
 MapJ(M) == [d \in Digests |-> M[d]]
 StateJ(L, D, M) == [live |-> L, dead |-> D, kidmap |-> M]
@@ -110,6 +122,7 @@ StepLaws ==
   LET op == last'.op IN
   /\ (op.name \in {"generate", "insert", "generate_bbs"} /\ last'.res.ok) => last'.res.slot \notin (live \cup dead)
   /\ (op.name = "sign" /\ op.slot \in bls) => ~last'.res.ok             \* a BLS key never signs through JwkStorage::sign
+  /\ (op.name \in {"sign_bbs", "update_bbs"} /\ op.slot \notin (live \cap bls)) => ~last'.res.ok   \* and only a BLS key makes BBS+ signatures
   /\ (op.name \in {"sign", "exists", "delete"} /\ op.slot \notin live) =>
         (IF op.name = "exists" THEN last'.res.v = FALSE ELSE ~last'.res.ok)      \* deleted / never issued ids do nothing
   /\ op.name = "insert_key_id" =>
